@@ -834,6 +834,12 @@ let rec choose_exec weighted cands ds tr =
 let rotate n0 l =
   app (skipn n0 l) (firstn n0 l)
 
+(** val unit_draw : q -> bool **)
+
+let unit_draw d =
+  (&&) (negb (qltb d { qnum = Z0; qden = XH }))
+    (qltb d { qnum = (Zpos XH); qden = XH })
+
 (** val exec : 'a1 samp -> q list -> call list -> 'a1 result * call list **)
 
 let rec exec m ds tr =
@@ -845,15 +851,24 @@ let rec exec m ds tr =
     then ((Err ZeroDivision), (rev ((CExpo r) :: tr)))
     else (match ds with
           | [] -> ((Err OutOfDraws), (rev tr))
-          | d :: ds' -> exec (k d) ds' ((CExpo r) :: tr))
+          | d :: ds' ->
+            if qltb d { qnum = Z0; qden = XH }
+            then ((Err OutOfDraws), (rev tr))
+            else exec (k d) ds' ((CExpo r) :: tr))
   | Flip (p, kt, kf) ->
     (match ds with
      | [] -> ((Err OutOfDraws), (rev tr))
-     | d :: ds' -> exec (if qltb d p then kt else kf) ds' ((CFlip p) :: tr))
+     | d :: ds' ->
+       if unit_draw d
+       then exec (if qltb d p then kt else kf) ds' ((CFlip p) :: tr)
+       else ((Err OutOfDraws), (rev tr)))
   | Casc (ps, k) ->
     (match ds with
      | [] -> ((Err OutOfDraws), (rev tr))
-     | d :: ds' -> exec (k (casc_index ps d O)) ds' ((CCasc ps) :: tr))
+     | d :: ds' ->
+       if unit_draw d
+       then exec (k (casc_index ps d O)) ds' ((CCasc ps) :: tr)
+       else ((Err OutOfDraws), (rev tr)))
   | Choose (w, c, k) ->
     let (p, ds') = choose_exec w c ds tr in
     let (r, tr') = p in
